@@ -399,7 +399,7 @@ func (stub *stub) Start(ctx context.Context) (retErr error) {
 
 	clientOpts := []ttrpc.ClientOpts{
 		ttrpc.WithOnClose(func() {
-			stub.connClosed()
+			stub.connClosed(rpcm)
 		}),
 	}
 	rpcc := ttrpc.NewClient(conn, append(clientOpts, stub.clientOpts...)...)
@@ -577,12 +577,20 @@ func (stub *stub) register(ctx context.Context) error {
 }
 
 // Handle a lost connection.
-func (stub *stub) connClosed() {
+func (stub *stub) connClosed(rpcm multiplex.Mux) {
 	stub.Lock()
-	stub.close()
+	// A late notification from an earlier connection must not tear
+	// down a later one.
+	stale := stub.rpcm != rpcm
+	if !stale {
+		stub.close()
+	}
 	stub.Unlock()
 	if stub.onClose != nil {
 		stub.onClose()
+		return
+	}
+	if stale {
 		return
 	}
 
